@@ -237,12 +237,14 @@ def explore_config(ctx, k, n_random_walks, n_random_sched, max_tour=None):
         ctx.sample({"cfg": key, "random_schedule_trace": [f"{e['t']}({e.get('w','')})" for e in c["trace"]][:60], "end": c["end"]})
 
 
-def real_mp_tier(ctx, R, B, C, kill_at=None):
+def real_mp_tier(ctx, R, B, C, kill_at=None, delay=None):
     """Real multiprocessing end to end (trusted-base cross-check of the fake layer)."""
     d = os.path.join(ctx.scratch, f"real_{R}_{B}_{C}_{kill_at}")
     gaf, gfa, fa = make_inputs(d, R)
     out = os.path.join(d, "out.gaf")
     env = dict(os.environ, GAFTOOLS_VERIF="1", GAFTOOLS_VERIF_BATCH_SIZE=str(B), PYTHONPATH="/repo")
+    if delay:
+        env["VERIF_REALMP_DELAY"] = delay
     driver = os.path.join(os.path.dirname(os.path.dirname(os.path.abspath(__file__))), "realmp_driver.py")
     cmd = [sys.executable, driver, gaf, gfa, fa, out, str(C), "" if kill_at is None else f"{kill_at[0]}:{kill_at[1]}:{kill_at[2]}"]
     try:
